@@ -129,6 +129,17 @@ Section U.
       destruct (is_embedded_name name && negb match c_spine c1 with [] => true | _ => false end) eqn:EM.
       { apply andb_true_iff in EM. destruct EM as [_ EM]. destruct (c_spine c1) eqn:SP; [discriminate|].
         destruct H1 as (E & S & K). jf. }
+      (* the cached base64 text of the parent is flushed first (since /repo c0648d3); the invariant survives it *)
+      assert (HF : J (flush_binary c1) /\
+                   (c_spine (flush_binary c1) = [] -> c_error (flush_binary c1) = WBXML_OK -> lang_set (flush_binary c1))).
+      { split; [now apply J_flush|]. pose proof (flush_binary_spine c1) as FS. destruct (flush_binary_fields c1) as (FL & _).
+        destruct (c_spine c1) eqn:SP.
+        - intros _ _. unfold lang_set. rewrite FL. apply (L1 eq_refl E1).
+        - destruct FS as (f' & -> & _). discriminate. }
+      clear H1 L1 E1 B1 EM. destruct HF as (H1 & L1). set (cf := flush_binary c1) in *. clearbody cf. clear c1. rename cf into c1.
+      unfold start_child.
+      destruct (negb (c_error c1 =? WBXML_OK)) eqn:B1; auto.
+      assert (E1 : c_error c1 = WBXML_OK) by (destruct (c_error c1 =? WBXML_OK) eqn:Q; [now apply N.eqb_eq|discriminate]).
       destruct (WBXML_MAX_NESTING_DEPTH <=? N.of_nat (List.length (c_spine c1))).
       { destruct H1 as (E & S & K). jf. }
       destruct (c_lang c1) as [l|] eqn:L.
@@ -271,9 +282,14 @@ Section U.
         rewrite S. cbn match. rewrite B.
         destruct (is_embedded_name n && _).
         { right. cbn. split; [rewrite S; eauto|]. unfold u32. pose proof (N.mod_le (c_skip_lvl c + 1) 4294967296). lia. }
+        pose proof (flush_binary_spine c) as FS. rewrite S in FS. destruct FS as (f' & S' & _).
+        destruct (flush_binary_fields c) as (_ & _ & _ & _ & FK & _).
+        set (cf := flush_binary c) in *. unfold start_child.
+        destruct (negb (c_error cf =? WBXML_OK)) eqn:B2.
+        { left. unfold failed. destruct (c_error cf =? WBXML_OK) eqn:Q; [discriminate|]. now apply N.eqb_neq. }
         destruct (WBXML_MAX_NESTING_DEPTH <=? _); [left; unfold failed; cbn; discriminate|].
-        destruct (c_lang c); [|left; unfold failed; cbn; discriminate].
-        destruct (resolve_tag l n). unfold push_frame. cbn. rewrite S. right. cbn. split; [eauto|lia]. }
+        destruct (c_lang cf); [|left; unfold failed; cbn; discriminate].
+        destruct (resolve_tag l n). unfold push_frame. cbn. rewrite S'. right. cbn. split; [eauto|lia]. }
       destruct D1 as [F|((f1 & up1 & S1) & K1)]; [now apply J_failed_run|].
       apply (IHb c1 f1 up1 S1 J1).
       rewrite !app_length in LEN. cbn [List.length] in LEN. rewrite app_length in LEN. cbn [List.length] in LEN. lia.
@@ -298,7 +314,9 @@ Section U.
       assert (H' : failed c' \/ (c_error c' = WBXML_OK /\ c_spine c' = [] /\ c_root c' = None /\ c_skip_lvl c' = 0)).
       { subst c'. destruct (c_lang c0); [right; auto|]. destruct (search_table _ _ _ _); [right; cbn; auto|left; unfold failed; cbn; discriminate]. }
       destruct H' as [F|(E' & S' & R' & K')]; [left; now rewrite (failed_eqb _ F)|].
-      rewrite E', S'. cbn [negb N.eqb WBXML_OK]. rewrite andb_false_r. cbn [List.length N.of_nat].
+      rewrite E', S'. cbn [negb N.eqb WBXML_OK]. rewrite andb_false_r.
+      assert (FN : flush_binary c' = c') by (unfold flush_binary; now rewrite S').
+      rewrite FN. unfold start_child. rewrite E', S'. cbn [negb N.eqb WBXML_OK List.length N.of_nat].
       change (WBXML_MAX_NESTING_DEPTH <=? 0) with false. cbv iota.
       destruct (c_lang c'); [|left; unfold failed; cbn; discriminate].
       destruct (resolve_tag l root). unfold push_frame. cbn. rewrite S', R'. right. cbn. split; [eauto|exact K']. }
